@@ -410,3 +410,11 @@ package list
 //@   loop 0:
 //@     invariant 0 <= i && i <= l && l == len(dAtA) && out != nil && isOurs != nil
 //@     decreases l - i
+
+// C11: a record whose ReadKeyChange sub-message is missing is rejected before any field of it is read,
+// with or without validation (a client-side list does not validate)
+//@ func (*AclState).applyReadKeyChange
+//@   requires st != nil && record != nil
+//@   assumes st.contentValidator != nil && st.keyStore != nil
+//@ func iface list.ContentValidator.ValidateReadKeyChange
+//@   modifies nothing
